@@ -33,6 +33,19 @@ def run(tier, seed):
     po_b = proof_obligations("WowVerif.Thm.C05b")      # enc_session: encrypted sessions of message VALUES (cipher law + framing + body codec)
     add_proof_failures(rep, po_b)
     po = dict(po, theorems=dict(po["theorems"], **po_b["theorems"]), obligations=po["obligations"] + po_b["obligations"], discharged=po["discharged"] + po_b["discharged"])
+    # T-gen: the dispatch of the opcode enums' writers (tools/opcode_dispatch.py): in `P_write_{encrypted,unencrypted}_{client,server}` the arm of
+    # every variant calls the method of the SAME name on the message, so the enum writer is the message writer whose transparency is proved
+    import opcode_dispatch
+    disp, dprob = opcode_dispatch.check()
+    for p in dprob:
+        rep.violation(f"C05/dispatch-translator/{p['file']}#{p['enum']}", p["problem"], p, no_input=True)
+    for a in disp:
+        if a["kind"] == "write" and not a["ok"]:
+            rep.violation(f"C05/dispatch/{a['file']}#{a['enum']}::{a['fn']}/{a['variant']}", f"{a['file']}: {a['enum']}::{a['fn']} writes {a['variant']} with `{a['calls']}`",
+                          dict(a, input=f"{a['enum']}::{a['variant']} written with {a['fn']}"), no_input=False)
+        if a["kind"] == "display" and not a["ok"]:
+            rep.violation(f"C05/dispatch-display/{a['file']}#{a['enum']}/{a['variant']}", f"{a['file']}: {a['enum']}::{a['variant']} is displayed as {a['text']}", a, no_input=True)
+    n_disp_write = sum(1 for a in disp if a["kind"] == "write")
     rc, out, har = harness_build("world")
     if rc != 0:
         rep.violation("C05/harness-build", "harness does not build against /repo", {"log": out[-3000:]}, no_input=True)
@@ -146,8 +159,8 @@ def run(tier, seed):
         "obligations": po["obligations"], "discharged": po["discharged"],
         "checker_cmd": "cd /verif/lean && lake build WowVerif.Thm.C05 && lake env lean WowVerif/Thm/C05.lean",
         "trusted_base": TRUSTED_BASE_COMMON + ["the wow_srp header ciphers satisfy the byte-wise coupling law (assumption of the theorems, validated by sampling in this run)",
-                                               "the framing model of C02 (hand transcription, tied by C02's correspondence)"],
-        "theorems": po["theorems"],
+                                               "the framing model of C02 (hand transcription, tied by C02's correspondence)", "tools/opcode_dispatch.py (reads the match arms of the opcode enums' writers)"],
+        "theorems": po["theorems"], "dispatch_write_arms": n_disp_write,
         "evaluations": len(reqs) + len(law) + len(freqs), "distinct_nontrivial": len(set(reqs)), "sequences": len(reqs), "messages_in_sequences": nmsg, "cipher_law_samples": len(law),
         "rule": "3 expansions x 2 directions x 2 reader entry points x (6 boundary sequences + random sequences of 1-30 messages with random 40-byte session keys); plus cipher-law samples",
         "samples": [{"request": reqs[i][:200], "implementation": ho[i][:160]} for i in (0, len(reqs) // 2)],
